@@ -544,8 +544,8 @@ pub fn gen_edge_cfg(t: &mut Tape) -> (Cfg, bool) {
     edge |= e(&mut c, t, "map-styles", &["bold purple => red, bold cyan => syntax blue", "red => raw", "", "bold red => omit"], 12);
     edge |= e(&mut c, t, "inline-hint-style", &["", "raw", "omit", "syntax"], 14);
     edge |= e(&mut c, t, "file-transformation", &["s/a/b/", "s/.*//", "s,src/,,g", "bad", "s/(/x/"], 14);
-    edge |= e(&mut c, t, "merge-conflict-begin-symbol", &["", "世", "xx"], 14);
-    edge |= e(&mut c, t, "merge-conflict-end-symbol", &["", "世", "xx"], 14);
+    edge |= e(&mut c, t, "merge-conflict-begin-symbol", &["", "世", "xx", "\u{200b}", "\u{301}", "🎉"], 10);
+    edge |= e(&mut c, t, "merge-conflict-end-symbol", &["", "世", "xx", "\u{200b}\u{200d}", "👍🏽"], 10);
     edge |= e(&mut c, t, "commit-regex", &["", ".", "^x", "^commit "], 16);
     if t.chance(1, 10) {
         c.flag("color-only");
